@@ -422,9 +422,8 @@ func (p *Prog) Normalise(known map[string]bool, keep func(*ssa.Function) bool) (
 			changed := false
 			for again, guard := true, 0; again && guard < 200; guard++ {
 				again = false
-				if inlinedInto[fn] || nLoops > 0 || nMaps > 0 || nSpec > 0 {
-					devirtBoundCalls(fn)
-				}
+				// (a method value called where it was made is the method call)
+				devirtBoundCalls(fn)
 				stripNamedFuncCalls(fn)
 			scan:
 				for _, b := range fn.Blocks {
